@@ -9,7 +9,6 @@ EXPLANATION = ('POLARITY rule on every state-changing site: MH: the only store o
                's\' and U < min(1, n\'/n), candidate inside the tree replaced only under U < n\'\'/max(n\'+n\'\',1) (threshold proportional to n\'\'); negated forms (!(a <= b)), '
                'min/max based selection or partial_cmp().unwrap() on these sites are violations; float->float conversions on these paths checked by type. '
                'Numeric behaviour of burn kernels on NaN/inf (trusted table) and absence of hangs on adversarial targets are not decided.')
-FLOORS = {'obligations': 58}   # counted on the reference tree; fewer instantiated obligations is reported, never passed silently
 TECHNIQUE = 'polarity analysis of accept conditions over value-flow terms (ordered-comparison true edge, sign of the candidate density term), selection-only rule'
 
 
